@@ -448,7 +448,9 @@ def gen_scenario(scen: Choices, cls, cfg):
             # a crash / interrupt between two statements matters where the object re-organises
             # itself: prefer the steps that do, and never the last step (somebody has to look)
             cand = [i for i, s_ in enumerate(steps[:-1]) if s_.get("op", {}).get("op") in ops.UNIFYING and s_["kind"] == "op"]
-            cand = cand or [i for i, s_ in enumerate(steps[:-1]) if s_["kind"] == "op"] or list(range(nsteps))
+            if not cand or scen.chance(1, 3):
+                # (class-form calls too: whatever the class form remembers between calls)
+                cand = [i for i, s_ in enumerate(steps[:-1]) if s_["kind"] in ("op", "class_form")] or list(range(nsteps))
         else:
             # a fault with nothing in flight tests nothing: prefer steps that go through the pool
             cand = [i for i, s_ in enumerate(steps) if s_.get("op", {}).get("op") in ops.BASIC + ops.COMPOSITE] or list(range(nsteps))
